@@ -57,6 +57,22 @@ fn hostile(ctx: &mut Ctx, bytes: &[u8], fault: &str) {
     ctx.distinct(crate::prng::hash_bytes(bytes));
 }
 
+/// the undamaged encoding itself: both decoders return the document
+fn whole(ctx: &mut Ctx, enc: &[u8], doc: &Tree) {
+    ctx.count("valid_encodings_decoded");
+    for what in ["from_slice", "parse_jsonb"] {
+        match observe(ctx, what, enc, "none(valid encoding)") {
+            Some(Ok(t)) => {
+                if !t.same_encoding(doc) {
+                    ctx.violation(&format!("{}/misreads-valid-encoding", what), || format!("{} read {} from the encoding of {}: {}", what, t.show(), doc.show(), hex(enc)));
+                }
+            }
+            Some(Err(())) => ctx.violation(&format!("{}/rejects-valid-encoding", what), || format!("{} rejected the encoding of {}: {}", what, doc.show(), hex(enc))),
+            None => {}
+        }
+    }
+}
+
 fn prefixes(ctx: &mut Ctx, enc: &[u8], doc: &Tree) {
     for cut in 0..enc.len() {
         let p = &enc[..cut];
@@ -354,6 +370,16 @@ pub fn run(ctx: &mut Ctx) {
             gen::doc(&mut rng, &gen::DocCfg { max_depth: 2, max_fan: 2, nonfinite: true, container_p: 4 })
         } else {
             match i % 4 {
+            _ if i % 16 == 5 => {
+                // wide rather than deep: hundreds of small containers side by side
+                let rows = 100 + rng.below(300);
+                let row = |rng: &mut Rng| if rng.bool() { Tree::Arr(vec![gen::scalar(rng, true)]) } else { Tree::Obj(vec![("k".into(), gen::scalar(rng, true))]) };
+                if rng.bool() {
+                    Tree::Arr((0..rows).map(|_| row(&mut rng)).collect())
+                } else {
+                    Tree::obj_from((0..rows).map(|k| (format!("k{}", k), row(&mut rng))).collect())
+                }
+            }
             0 => gen::doc(&mut rng, &gen::DOC_SMALL),
             1 => gen::doc(&mut rng, &gen::DocCfg { max_depth: 2, max_fan: 3, nonfinite: true, container_p: 5 }),
             2 => gen::doc(&mut rng, &gen::DOC_DEFAULT),
@@ -365,6 +391,7 @@ pub fn run(ctx: &mut Ctx) {
         };
         let enc = refcodec::encode(&doc);
         ctx.count("seed_documents");
+        whole(ctx, &enc, &doc);
         ctx.sample(|| format!("seed {} = {} (+ faults)", doc.show(), hex(&enc)));
         if enc.len() <= if ctx.miri { 48 } else { 4096 } {
             prefixes(ctx, &enc, &doc);
